@@ -83,3 +83,4 @@ pub fn jstr(s: &str) -> String {
 }
 
 pub mod eng;
+pub mod kvmem;
